@@ -113,7 +113,7 @@ Definition gdelta (T : tables) (trip : text) (one teen : list text) (d d10 d100 
   let lo := match d10 with
             | 0 => if Nat.eqb d 0 then [] else [tnth one d]
             | 1 => [tnth teen d]
-            | _ => [tnth one d; tnth (t_ten T) (d10 - 2)]
+            | _ => (if Nat.eqb d 0 then [] else [tnth one d]) ++ [tnth (t_ten T) (d10 - 2)]
             end in
   let hi := if Nat.eqb d100 0 then [] else [hundred_w; tnth (t_one T) d100] in
   match lo ++ hi with
@@ -326,98 +326,64 @@ Proof.
   rewrite (IH (S k) false) by lia. reflexivity.
 Qed.
 
-(* the condition on one group: no tens digit 2..9 with a units digit 0 (the scale index k plays no part since
-   cardinalTriples[6] is spelled quintillion) *)
-Definition tok (k : nat) (t : N) : bool :=
-  (t mod 100 <? 20)%N || negb (t mod 10 =? 0)%N.
-Fixpoint gok_list (k : nat) (ts : list N) : bool :=
-  match ts with [] => true | t :: ts' => tok k t && gok_list (S k) ts' end.
 (* the condition on the lowest group for ordinals: it ends in 01..19 or in a digit that is not 0 *)
 Definition ordt (t : N) : bool := ((1 <=? t mod 100)%N && (t mod 100 <? 20)%N) || negb (t mod 10 =? 0)%N.
 Definition ord_grp (t : N) : list text := removelast (triple_words t) ++ [ordinal_word (last (triple_words t) [])].
 
 (* the finite checks, functions of the tables: all 22 scales x 1000 group values *)
 Definition chkA (T : tables) : bool :=
-  forallb (fun k => forallb (fun j => implb (tok k (N.of_nat j)) (texts_eq (gw_rev T k false (N.of_nat j)) (spec_grp k (N.of_nat j))))
-                            (seq 0 1000)) (seq 0 22).
+  forallb (fun k => forallb (fun j => texts_eq (gw_rev T k false (N.of_nat j)) (spec_grp k (N.of_nat j))) (seq 0 1000)) (seq 0 22).
 Definition chkC (T : tables) : bool :=
-  forallb (fun j => implb (tok 0 (N.of_nat j) && ordt (N.of_nat j)) (texts_eq (gw_rev T 0 true (N.of_nat j)) (ord_grp (N.of_nat j))))
-          (seq 0 1000).
+  forallb (fun j => implb (ordt (N.of_nat j)) (texts_eq (gw_rev T 0 true (N.of_nat j)) (ord_grp (N.of_nat j)))) (seq 0 1000).
 Lemma texts_eq_eq : forall a b, texts_eq a b = true -> a = b.
 Proof.
   induction a as [|x a IH]; destruct b as [|y b]; cbn; intros H; try discriminate; [reflexivity|].
   apply andb_true_iff in H. destruct H as [H1 H2]. f_equal; [apply text_eqb_eq; exact H1 | apply IH; exact H2].
 Qed.
-Lemma chkA_fact : forall T, chkA T = true -> forall k t, k < 22 -> (t < 1000)%N -> tok k t = true ->
-  gw_rev T k false t = spec_grp k t.
+Lemma chkA_fact : forall T, chkA T = true -> forall k t, k < 22 -> (t < 1000)%N -> gw_rev T k false t = spec_grp k t.
 Proof.
-  intros T H k t Hk Ht Hok. unfold chkA in H. rewrite forallb_forall in H.
+  intros T H k t Hk Ht. unfold chkA in H. rewrite forallb_forall in H.
   specialize (H k ltac:(apply in_seq; lia)). rewrite forallb_forall in H.
-  specialize (H (N.to_nat t) ltac:(apply in_seq; lia)). rewrite N2Nat.id, Hok in H. apply texts_eq_eq. exact H.
+  specialize (H (N.to_nat t) ltac:(apply in_seq; lia)). rewrite N2Nat.id in H. apply texts_eq_eq. exact H.
 Qed.
-Lemma chkC_fact : forall T, chkC T = true -> forall t, (t < 1000)%N -> tok 0 t = true -> ordt t = true ->
-  gw_rev T 0 true t = ord_grp t.
+Lemma chkC_fact : forall T, chkC T = true -> forall t, (t < 1000)%N -> ordt t = true -> gw_rev T 0 true t = ord_grp t.
 Proof.
-  intros T H t Ht Hok Ho. unfold chkC in H. rewrite forallb_forall in H.
-  specialize (H (N.to_nat t) ltac:(apply in_seq; lia)). rewrite N2Nat.id, Hok, Ho in H. apply texts_eq_eq. exact H.
+  intros T H t Ht Ho. unfold chkC in H. rewrite forallb_forall in H.
+  specialize (H (N.to_nat t) ltac:(apply in_seq; lia)). rewrite N2Nat.id, Ho in H. apply texts_eq_eq. exact H.
 Qed.
 Lemma group_words_cons : forall k t ts, group_words k (t :: ts) = group_words (S k) ts ++ spec_grp k t.
 Proof. reflexivity. Qed.
+(* the cardinal words of the loop are the cardinal words of the definition, for every list of groups *)
 Lemma ggroup_card : forall T, chkA T = true -> forall ts k, k + List.length ts <= 22 ->
-  Forall (fun t => (t < 1000)%N) ts -> gok_list k ts = true -> ggroup T k false ts = group_words k ts.
+  Forall (fun t => (t < 1000)%N) ts -> ggroup T k false ts = group_words k ts.
 Proof.
-  intros T HA. induction ts as [|t ts IH]; intros k Hk Hts Hok; [reflexivity|].
-  inversion Hts as [|? ? Ht Hts']; subst. cbn [gok_list] in Hok. apply andb_true_iff in Hok. destruct Hok as [Hk1 Hk2].
+  intros T HA. induction ts as [|t ts IH]; intros k Hk Hts; [reflexivity|].
+  inversion Hts as [|? ? Ht Hts']; subst.
   cbn [List.length] in Hk. rewrite group_words_cons. cbn [ggroup].
   rewrite IH by (try assumption; lia). rewrite (chkA_fact T HA) by (try assumption; lia). reflexivity.
 Qed.
 
-(* ---- the static predicate of Proofs.v (the domain of the theorem) ----------------------------------------- *)
-(* where the loop of dirR, with the tables as they stand, writes the defined text: no group of three digits has a
-   tens digit 2..9 with a units digit 0, the number is below 10^66; and for
-   ordinals the last two digits are 01..19 or the last digit is not 0 *)
-Fixpoint groups_ok (fuel : nat) (n : N) (k : nat) : bool :=
-  match fuel with
-  | O => true
-  | S f => if (n =? 0)%N then true
-           else let t := (n mod 1000)%N in
-                ((t mod 100 <? 20)%N || negb (t mod 10 =? 0)%N) &&
-                groups_ok f (n / 1000)%N (S k)
-  end.
+(* ---- the static predicate (the domain of the theorem) ---------------------------------------------------- *)
+(* where the loop of dirR writes the defined text: the number is below 10^66, and for ordinals the last two digits are
+   01..19 or the last digit is not 0. (Two more clauses went with the repairs repo_fixes/C15-1 and C15-2: the group of
+   10^18, spelled quantillion, had to be zero, and no group could have a tens digit 2..9 with a units digit 0, which
+   appended the empty word one[0].) *)
 Definition english_ok (ordinal : bool) (n : N) : bool :=
-  (n <? ten66)%N && groups_ok 30 n 0 &&
+  (n <? ten66)%N &&
   (negb ordinal || (n =? 0)%N || ((1 <=? n mod 100)%N && (n mod 100 <? 20)%N) || negb (n mod 10 =? 0)%N).
 
-Lemma groups_ok_list : forall f n k f2, (n < 1000 ^ N.of_nat f)%N -> (n < 2 ^ N.of_nat f2)%N ->
-  groups_ok f n k = gok_list k (triples_fuel f2 n).
-Proof.
-  induction f as [|f IH]; intros n k f2 H1 H2.
-  - cbn in H1. assert (n = 0%N) by lia. subst. rewrite triples_fuel_zero. reflexivity.
-  - cbn [groups_ok]. destruct (n =? 0)%N eqn:E.
-    + apply N.eqb_eq in E. subst. rewrite triples_fuel_zero. reflexivity.
-    + apply N.eqb_neq in E. destruct f2 as [|f2]. { cbn in H2. lia. }
-      cbn [triples_fuel]. replace (n =? 0)%N with false by (symmetry; apply N.eqb_neq; exact E).
-      cbn [gok_list]. unfold tok. f_equal. apply IH.
-      * rewrite Nat2N.inj_succ, N.pow_succ_r' in H1. apply N.div_lt_upper_bound; lia.
-      * rewrite Nat2N.inj_succ, N.pow_succ_r' in H2.
-        assert (n / 1000 <= n / 2)%N by (apply N.div_le_compat_l; lia).
-        assert (n / 2 < 2 ^ N.of_nat f2)%N by (apply N.div_lt_upper_bound; lia). lia.
-Qed.
-Lemma ten66_le_30 : (ten66 <= 1000 ^ N.of_nat 30)%N.
-Proof. apply N.leb_le. vm_compute. reflexivity. Qed.
 (* what is known of the groups of a number 0 < n < 10^66 *)
 Lemma triples_facts : forall n, (0 < n < ten66)%N ->
   exists ts', triples_of n = (n mod 1000)%N :: ts' /\ List.length ts' <= 21 /\
-              Forall (fun t => (t < 1000)%N) (triples_of n) /\ groups_ok 30 n 0 = gok_list 0 (triples_of n).
+              Forall (fun t => (t < 1000)%N) (triples_of n).
 Proof.
   intros n Hn.
   destruct (triples_fuel_value _ n (fuel_enough' n)) as [_ Hb]. fold (triples_of n) in Hb.
   pose proof (triples_fuel_length (S (N.to_nat (N.log2 n))) n 22) as Hl.
   rewrite <- ten66_is in Hl. specialize (Hl ltac:(lia)). fold (triples_of n) in Hl.
-  pose proof (groups_ok_list 30 n 0 _ ltac:(pose proof ten66_le_30; lia) (fuel_enough' n)) as Hg. fold (triples_of n) in Hg.
   assert (E : triples_of n = (n mod 1000)%N :: triples_fuel (N.to_nat (N.log2 n)) (n / 1000)).
   { unfold triples_of. cbn [triples_fuel]. replace (n =? 0)%N with false by (symmetry; apply N.eqb_neq; lia). reflexivity. }
-  eexists. split; [exact E|]. split; [rewrite E in Hl; cbn [List.length] in Hl; lia|]. split; assumption.
+  eexists. split; [exact E|]. split; [rewrite E in Hl; cbn [List.length] in Hl; lia | assumption].
 Qed.
 
 (* ---- 5. the theorem: on english_ok the loop writes the defined text, for ALL integers ---------------------- *)
@@ -441,11 +407,9 @@ Theorem english_loop_T : forall T, List.length (t_triples T) = 22 -> chkA T = tr
 Proof.
   intros T HL HA HC ordinal z Hok.
   destruct (Z.eq_dec z 0) as [-> | Hz]. { apply english_zero. }
-  unfold english_ok in Hok. apply andb_true_iff in Hok. destruct Hok as [Hok Ho].
-  apply andb_true_iff in Hok. destruct Hok as [Hlt Hg]. apply N.ltb_lt in Hlt.
+  unfold english_ok in Hok. apply andb_true_iff in Hok. destruct Hok as [Hlt Ho]. apply N.ltb_lt in Hlt.
   set (n := Z.abs_N z) in *.
-  destruct (triples_facts n ltac:(lia)) as [ts' [E [Hl [Hb Hgl]]]].
-  rewrite Hgl in Hg. clear Hgl.
+  destruct (triples_facts n ltac:(lia)) as [ts' [E [Hl Hb]]].
   rewrite go_english_words by exact Hz. fold n.
   change (if ordinal then t_ordone T else t_one T) with (sel_one T ordinal).
   change (if ordinal then t_ordteen T else t_teen T) with (sel_teen T ordinal).
@@ -453,7 +417,7 @@ Proof.
   unfold std_english, ordinal_words. rewrite (cardinal_words_pos z Hz Hlt). fold n.
   destruct ordinal.
   - (* ordinal: the lowest group is written with the ordinal tables *)
-    rewrite E in *. cbn [gok_list] in Hg. apply andb_true_iff in Hg. destruct Hg as [Hg0 Hg1].
+    rewrite E in *.
     inversion Hb as [|? ? Ht Hts']; subst.
     assert (Hord : ordt (n mod 1000) = true).
     { cbn [negb orb] in Ho. replace (n =? 0)%N with false in Ho by (symmetry; apply N.eqb_neq; lia). cbn [orb] in Ho.
@@ -483,29 +447,8 @@ Theorem english_loop : forall ordinal z, english_ok ordinal (Z.abs_N z) = true -
 Proof. destruct src_checks as [H1 [H2 H3]]. exact (english_loop_T src_tables H1 H2 H3). Qed.
 
 (* ---- 6. the converse: outside english_ok the loop writes something else ------------------------------------- *)
-(* the vocabulary of the definition: every word of std_english is one of these *)
-Definition vocab : list text := Eval vm_compute in
-  tx "zero" :: tx "negative" :: all_words ++ map ordinal_word (tx "zero" :: all_words).
-Lemma vocab_is : vocab = tx "zero" :: tx "negative" :: all_words ++ map ordinal_word (tx "zero" :: all_words).
-Proof. vm_compute. reflexivity. Qed.
-Definition inv (w : text) : bool := existsb (text_eqb w) vocab.
-Lemma inv_in : forall w, In w vocab -> inv w = true.
-Proof. intros w H. unfold inv. apply existsb_exists. exists w. split; [exact H | apply text_eqb_refl]. Qed.
 Lemma is_word_in : forall w, is_word w = true -> In w all_words.
 Proof. intros w H. unfold is_word in H. apply existsb_exists in H. destruct H as [x [Hx E]]. apply text_eqb_eq in E. subst. exact Hx. Qed.
-Lemma wordish_inv : forall w, wordish w = true -> inv w = true.
-Proof.
-  intros w Hw. apply inv_in. rewrite vocab_is. unfold wordish in *.
-  apply orb_true_iff in Hw. destruct Hw as [Hw | Hw]; [apply orb_true_iff in Hw; destruct Hw as [Hw | Hw]|].
-  - right. right. apply in_or_app. left. apply is_word_in. exact Hw.
-  - left. apply text_eqb_eq in Hw. auto.
-  - right. left. apply text_eqb_eq in Hw. auto.
-Qed.
-Lemma ordinal_inv : forall w, (w = tx "zero" \/ is_word w = true) -> inv (ordinal_word w) = true.
-Proof.
-  intros w Hw. apply inv_in. rewrite vocab_is. right. right. apply in_or_app. right. apply in_map.
-  destruct Hw as [-> | Hw]; [left; reflexivity | right; apply is_word_in; exact Hw].
-Qed.
 Lemma ordinal_differs_all : forallb (fun w => negb (text_eqb (ordinal_word w) w)) (tx "zero" :: all_words) = true.
 Proof. vm_compute. reflexivity. Qed.
 Lemma ordinal_differs : forall w, (w = tx "zero" \/ is_word w = true) -> ordinal_word w <> w.
@@ -514,31 +457,24 @@ Proof.
   specialize (H w ltac:(destruct Hw as [-> | Hw]; [left; reflexivity | right; apply is_word_in; exact Hw])).
   rewrite E, text_eqb_refl in H. discriminate.
 Qed.
-Lemma forallb_existsb_neg : forall (f : text -> bool) l, forallb f l = true -> existsb (fun w => negb (f w)) l = true -> False.
-Proof.
-  intros f l H1 H2. apply existsb_exists in H2. destruct H2 as [x [Hx Hn]].
-  rewrite forallb_forall in H1. rewrite (H1 x Hx) in Hn. discriminate.
-Qed.
-(* the words of the definition, cardinal or ordinal, are in the vocabulary, have no blank, and there is one at least *)
+(* the words of the definition, cardinal or ordinal, have no blank, and there is one at least *)
 Lemma std_words_shape : forall (ordinal : bool) z ws, (if ordinal then ordinal_words z else cardinal_words z) = Some ws ->
-  ws <> [] /\ forallb inv ws = true /\ forallb no_space ws = true /\ hd [] ws <> [].
+  ws <> [] /\ forallb no_space ws = true /\ hd [] ws <> [].
 Proof.
   intros ordinal z ws H.
   assert (G : forall cw, cardinal_words z = Some cw ->
-              cw <> [] /\ forallb inv cw = true /\ forallb no_space cw = true /\ hd [] cw <> []).
+              cw <> [] /\ forallb no_space cw = true /\ hd [] cw <> []).
   { intros cw Hc. destruct (cardinal_words_shape z cw Hc) as [Hne [Hw _]]. split; [exact Hne|].
-    rewrite forallb_forall in Hw. split; [|split].
-    - apply forallb_forall. intros x Hx. apply wordish_inv. apply Hw. exact Hx.
+    rewrite forallb_forall in Hw. split.
     - apply forallb_forall. intros x Hx. apply (wordish_no_space x (Hw x Hx)).
     - destruct cw as [|w cw]; [contradiction|]. cbn [hd]. intros E. specialize (Hw w (or_introl eq_refl)). subst w. discriminate. }
   destruct ordinal; [|exact (G ws H)].
   unfold ordinal_words in H. destruct (cardinal_words z) as [cw|] eqn:Hc; [|discriminate]. inversion H; subst ws. clear H.
-  destruct (G cw eq_refl) as [Hne [Hi [Hn Hh]]]. destruct (cardinal_words_shape z cw Hc) as [_ [Hw Hlast]].
+  destruct (G cw eq_refl) as [Hne [Hn Hh]]. destruct (cardinal_words_shape z cw Hc) as [_ [Hw Hlast]].
   assert (Hlw : wordish (last cw []) = true).
   { rewrite forallb_forall in Hw. apply Hw. destruct cw as [|x l] using rev_ind; [contradiction|].
     rewrite last_last. apply in_or_app. right. left. reflexivity. }
-  split; [destruct (removelast cw); discriminate|]. split; [|split].
-  - rewrite forallb_app, forallb_removelast by exact Hi. cbn [forallb]. rewrite (ordinal_inv _ Hlast). reflexivity.
+  split; [destruct (removelast cw); discriminate|]. split.
   - rewrite forallb_app, forallb_removelast by exact Hn. cbn [forallb].
     rewrite (proj2 (wordish_no_space _ Hlw)). reflexivity.
   - destruct cw as [|w cw]; [contradiction|]. destruct cw as [|w2 cw].
@@ -559,21 +495,13 @@ Proof.
   rewrite E in S1. rewrite S1 in S2. cbn [rev app] in S2. exact S2.
 Qed.
 
-(* three more finite checks over the tables: the words of the loop have no blank; a group outside `tok` has a word that
-   is not in the vocabulary of the definition (the empty word); where the ordinal condition fails on a group
-   inside `tok` (it ends in 00) the ordinal tables are not used *)
+(* two more finite checks over the tables: the words of the loop have no blank; where the ordinal condition fails on the
+   lowest group (it ends in 00, 20, 30, ... 90) the ordinal tables are not used *)
 Definition chkN (T : tables) : bool :=
   forallb (fun k => forallb (fun j => forallb no_space (gw_rev T k false (N.of_nat j)) && forallb no_space (gw_rev T k true (N.of_nat j)))
                             (seq 0 1000)) (seq 0 22).
-Definition badw (T : tables) (w : text) : bool := text_eqb w [].
-Definition chkB (T : tables) : bool :=
-  negb (inv []) &&
-  forallb (fun k => forallb (fun j => if tok k (N.of_nat j) then true
-                                      else existsb (badw T) (gw_rev T k false (N.of_nat j)) &&
-                                           existsb (badw T) (gw_rev T k true (N.of_nat j)))
-                            (seq 0 1000)) (seq 0 22).
 Definition chkD (T : tables) : bool :=
-  forallb (fun j => implb (tok 0 (N.of_nat j) && negb (ordt (N.of_nat j)))
+  forallb (fun j => implb (negb (ordt (N.of_nat j)))
                           (texts_eq (gw_rev T 0 true (N.of_nat j)) (gw_rev T 0 false (N.of_nat j)))) (seq 0 1000).
 Lemma chkN_fact : forall T, chkN T = true -> forall k t ord, k < 22 -> (t < 1000)%N -> forallb no_space (gw_rev T k ord t) = true.
 Proof.
@@ -582,24 +510,11 @@ Proof.
   specialize (H (N.to_nat t) ltac:(apply in_seq; lia)). rewrite N2Nat.id in H.
   apply andb_true_iff in H. destruct H. destruct ord; assumption.
 Qed.
-Lemma chkB_fact : forall T, chkB T = true -> forall k t ord, k < 22 -> (t < 1000)%N -> tok k t = false ->
-  existsb (fun w => negb (inv w)) (gw_rev T k ord t) = true.
-Proof.
-  intros T H k t ord Hk Ht Hok. unfold chkB in H.
-  apply andb_true_iff in H. destruct H as [H0 H].
-  rewrite forallb_forall in H.
-  specialize (H k ltac:(apply in_seq; lia)). rewrite forallb_forall in H.
-  specialize (H (N.to_nat t) ltac:(apply in_seq; lia)). rewrite N2Nat.id, Hok in H.
-  apply andb_true_iff in H.
-  assert (G : existsb (badw T) (gw_rev T k ord t) = true) by (destruct H; destruct ord; assumption).
-  apply existsb_exists in G. destruct G as [w [Hw Hb]]. apply existsb_exists. exists w. split; [exact Hw|].
-  unfold badw in Hb. apply text_eqb_eq in Hb. subst w. assumption.
-Qed.
-Lemma chkD_fact : forall T, chkD T = true -> forall t, (t < 1000)%N -> tok 0 t = true -> ordt t = false ->
+Lemma chkD_fact : forall T, chkD T = true -> forall t, (t < 1000)%N -> ordt t = false ->
   gw_rev T 0 true t = gw_rev T 0 false t.
 Proof.
-  intros T H t Ht Hok Ho. unfold chkD in H. rewrite forallb_forall in H.
-  specialize (H (N.to_nat t) ltac:(apply in_seq; lia)). rewrite N2Nat.id, Hok, Ho in H. apply texts_eq_eq. exact H.
+  intros T H t Ht Ho. unfold chkD in H. rewrite forallb_forall in H.
+  specialize (H (N.to_nat t) ltac:(apply in_seq; lia)). rewrite N2Nat.id, Ho in H. apply texts_eq_eq. exact H.
 Qed.
 Lemma ggroup_no_space : forall T, chkN T = true -> forall ts k ord, k + List.length ts <= 22 ->
   Forall (fun t => (t < 1000)%N) ts -> forallb no_space (ggroup T k ord ts) = true.
@@ -608,76 +523,58 @@ Proof.
   inversion Hts as [|? ? Ht Hts']; subst. cbn [List.length] in Hk. cbn [ggroup].
   rewrite forallb_app, IH by (try assumption; lia). rewrite (chkN_fact T HN) by (try assumption; lia). reflexivity.
 Qed.
-Lemma ggroup_bad : forall T, chkB T = true -> forall ts k ord, k + List.length ts <= 22 ->
-  Forall (fun t => (t < 1000)%N) ts -> gok_list k ts = false -> existsb (fun w => negb (inv w)) (ggroup T k ord ts) = true.
-Proof.
-  intros T HB. induction ts as [|t ts IH]; intros k ord Hk Hts Hok; [discriminate|].
-  inversion Hts as [|? ? Ht Hts']; subst. cbn [List.length] in Hk. cbn [ggroup gok_list] in *.
-  rewrite existsb_app. destruct (tok k t) eqn:Et.
-  - cbn [andb] in Hok. rewrite IH by (try assumption; lia). reflexivity.
-  - rewrite (chkB_fact T HB) by (try assumption; lia). apply orb_true_r.
-Qed.
-
 Theorem english_loop_converse_T : forall T, List.length (t_triples T) = 22 ->
-  chkA T = true -> chkN T = true -> chkB T = true -> chkD T = true ->
+  chkA T = true -> chkN T = true -> chkD T = true ->
   forall ordinal z, english_ok ordinal (Z.abs_N z) = false -> go_english T ordinal (dec_text z) <> std_english ordinal z.
 Proof.
-  intros T HL HA HN HB HD ordinal z Hok Heq.
+  intros T HL HA HN HD ordinal z Hok Heq.
   destruct (Z.eq_dec z 0) as [-> | Hz]. { destruct ordinal; vm_compute in Hok; discriminate. }
   unfold english_ok in Hok. set (n := Z.abs_N z) in *.
   rewrite go_english_words in Heq by exact Hz. fold n in Heq.
   destruct (n <? ten66)%N eqn:Hlt; [apply N.ltb_lt in Hlt | apply N.ltb_ge in Hlt].
   2:{ (* beyond the scale words the definition has no text, the loop has one *)
       rewrite english_domain in Heq by (subst n; lia). discriminate. }
-  destruct (triples_facts n ltac:(lia)) as [ts' [E [Hl [Hb Hgl]]]].
-  rewrite Hgl in Hok. clear Hgl. cbn [andb] in Hok.
+  destruct (triples_facts n ltac:(lia)) as [ts' [E [Hl Hb]]].
+  cbn [andb] in Hok.
   pose proof (cardinal_words_pos z Hz Hlt) as Hc. fold n in Hc.
   change (if ordinal then t_ordone T else t_one T) with (sel_one T ordinal) in Heq.
   change (if ordinal then t_ordteen T else t_teen T) with (sel_teen T ordinal) in Heq.
   rewrite GL_ggroup0 in Heq by (rewrite E, HL; cbn [List.length]; lia).
   unfold std_english in Heq.
   destruct (if ordinal then ordinal_words z else cardinal_words z) as [ws|] eqn:Hws; [|discriminate].
-  destruct (std_words_shape ordinal z ws Hws) as [Hne [Hinv [Hns _]]].
+  destruct (std_words_shape ordinal z ws Hws) as [Hne [Hns _]].
   apply (f_equal (fun o : option text => match o with Some t => t | None => [] end)) in Heq. cbv beta iota in Heq.
   set (negw := if (z <? 0)%Z then [tx "negative"] else []) in *.
   assert (Hnsg : forallb no_space (negw ++ ggroup T 0 ordinal (triples_of n)) = true).
   { rewrite forallb_app. rewrite (ggroup_no_space T HN) by (try assumption; rewrite E; cbn [List.length]; lia).
     subst negw. destruct (z <? 0)%Z; reflexivity. }
-  destruct (gok_list 0 (triples_of n)) eqn:Hg.
-  - (* every group is inside tok: it is the ordinal of a number that ends in 00 *)
-    cbn [andb] in Hok. destruct ordinal; [|discriminate]. cbn [negb orb] in Hok.
-    replace (n =? 0)%N with false in Hok by (symmetry; apply N.eqb_neq; lia). cbn [orb] in Hok.
-    rewrite E in *. cbn [gok_list] in Hg. apply andb_true_iff in Hg. destruct Hg as [Hg0 Hg1].
-    inversion Hb as [|? ? Ht Hts']; subst.
-    assert (Hord : ordt (n mod 1000) = false).
-    { unfold ordt. replace ((n mod 1000) mod 100)%N with (n mod 100)%N by lia.
-      replace ((n mod 1000) mod 10)%N with (n mod 10)%N by lia. exact Hok. }
-    cbn [ggroup] in Heq, Hnsg. rewrite (chkD_fact T HD) in Heq, Hnsg by assumption.
-    change (ggroup T 1 false ts' ++ gw_rev T 0 false (n mod 1000)) with (ggroup T 0 false ((n mod 1000)%N :: ts')) in Heq, Hnsg.
-    rewrite (ggroup_card T HA) in Heq, Hnsg by (try assumption; cbn [gok_list List.length]; try lia; rewrite Hg0, Hg1; reflexivity).
-    remember (negw ++ group_words 0 ((n mod 1000)%N :: ts')) as cw eqn:Ecw.
-    unfold ordinal_words in Hws. rewrite Hc in Hws. injection Hws as Hws.
-    destruct (cardinal_words_shape z cw Hc) as [Hcne [_ Hlast]].
-    apply join_inj in Heq; try assumption.
-    rewrite <- Hws in Heq. apply (f_equal (fun l => last l [])) in Heq. cbv beta in Heq. rewrite last_last in Heq.
-    exact (ordinal_differs _ Hlast (eq_sym Heq)).
-  - (* some group is outside tok: the loop writes a word the definition never writes *)
-    pose proof (ggroup_bad T HB (triples_of n) 0 ordinal ltac:(rewrite E; cbn [List.length]; lia) Hb Hg) as Hbad.
-    assert (Hbad' : existsb (fun w => negb (inv w)) (negw ++ ggroup T 0 ordinal (triples_of n)) = true).
-    { rewrite existsb_app, Hbad. apply orb_true_r. }
-    apply join_inj in Heq; try assumption.
-    + rewrite Heq in Hbad'. exact (forallb_existsb_neg inv ws Hinv Hbad').
-    + intros E0. rewrite E0 in Hbad'. discriminate.
+  (* it is the ordinal of a number that ends in 0 (and not in 10): the loop writes the cardinal *)
+  destruct ordinal; [|discriminate]. cbn [negb orb] in Hok.
+  replace (n =? 0)%N with false in Hok by (symmetry; apply N.eqb_neq; lia). cbn [orb] in Hok.
+  rewrite E in *.
+  inversion Hb as [|? ? Ht Hts']; subst.
+  assert (Hord : ordt (n mod 1000) = false).
+  { unfold ordt. replace ((n mod 1000) mod 100)%N with (n mod 100)%N by lia.
+    replace ((n mod 1000) mod 10)%N with (n mod 10)%N by lia. exact Hok. }
+  cbn [ggroup] in Heq, Hnsg. rewrite (chkD_fact T HD) in Heq, Hnsg by assumption.
+  change (ggroup T 1 false ts' ++ gw_rev T 0 false (n mod 1000)) with (ggroup T 0 false ((n mod 1000)%N :: ts')) in Heq, Hnsg.
+  rewrite (ggroup_card T HA) in Heq, Hnsg by (try assumption; cbn [List.length]; lia).
+  remember (negw ++ group_words 0 ((n mod 1000)%N :: ts')) as cw eqn:Ecw.
+  unfold ordinal_words in Hws. rewrite Hc in Hws. injection Hws as Hws.
+  destruct (cardinal_words_shape z cw Hc) as [Hcne [_ Hlast]].
+  apply join_inj in Heq; try assumption.
+  rewrite <- Hws in Heq. apply (f_equal (fun l => last l [])) in Heq. cbv beta in Heq. rewrite last_last in Heq.
+  exact (ordinal_differs _ Hlast (eq_sym Heq)).
 Qed.
 
 (* with the tables as they stand in the source: both directions *)
-Lemma src_checks_converse : chkN src_tables = true /\ chkB src_tables = true /\ chkD src_tables = true.
-Proof. split; [|split]; vm_compute; reflexivity. Qed.
+Lemma src_checks_converse : chkN src_tables = true /\ chkD src_tables = true.
+Proof. split; vm_compute; reflexivity. Qed.
 Theorem english_loop_converse : forall ordinal z, english_ok ordinal (Z.abs_N z) = false ->
   go_english src_tables ordinal (dec_text z) <> std_english ordinal z.
 Proof.
-  destruct src_checks as [H1 [H2 _]]. destruct src_checks_converse as [H3 [H4 H5]].
-  exact (english_loop_converse_T src_tables H1 H2 H3 H4 H5).
+  destruct src_checks as [H1 [H2 _]]. destruct src_checks_converse as [H3 H4].
+  exact (english_loop_converse_T src_tables H1 H2 H3 H4).
 Qed.
 Theorem english_loop_exact : forall ordinal z,
   go_english src_tables ordinal (dec_text z) = std_english ordinal z <-> english_ok ordinal (Z.abs_N z) = true.
